@@ -492,6 +492,7 @@ def procWrite (s : St) (c : Ctx) (args : Bytes) : St × Outcome :=
   match getAttr s c.now n with
   | (s1, .error st) => (s1, res (mapErrno st) (.wcc wcc0))
   | (s1, .ok pre) =>
+  if pre.kind = .link then (s1, res 22 (.wcc wcc0)) else
   match writeOp s1 h n off data with
   | .error e =>
     let (s2, post) := getAttrOr s1 c.now n pre
